@@ -182,7 +182,7 @@ func (rg *rig) queuedChecksCase(failFast bool, id string, rng *rand.Rand) {
 	digests := make([]*pb.Digest, nBlobs)
 	slow := base("before-response", "stall", "slow-backend", "contains", "stall").exp(expNoHit, expNoHit)
 	for i := range objs {
-		o := rg.fresh(func() *object { return newCAS(rng, rg.storage, 40+rng.IntN(50), fmt.Sprintf("%s-%d", id, i), false) })
+		o := rg.fresh(func(int) *object { return newCAS(rng, rg.storage, 40+rng.IntN(50), fmt.Sprintf("%s-%d", id, i), false) })
 		objs[i] = o
 		digests[i] = digestOf(o)
 		if failFast && i == 2 {
